@@ -156,6 +156,15 @@ class FIXContainer:
         else:
             return None
 
+    @staticmethod
+    def _int_tag(tag: str | int) -> str:
+        """str(tag) of a tag that is convertible to int, FIXMessageError otherwise."""
+        try:
+            int(str(tag))
+        except ValueError:
+            raise FIXMessageError("Tags must be only integers")
+        return str(tag)
+
     def add_group(self, tag: str | int, group: FIXContainer | dict, index: int = -1):
         """Add repeating group item to fix message.
 
@@ -167,7 +176,7 @@ class FIXContainer:
         Raises:
             FIXMessageError: incorrect group type/value
         """
-        tag = str(tag)
+        tag = self._int_tag(tag)
 
         if isinstance(group, dict):
             group = FIXContainer(group)
@@ -195,7 +204,7 @@ class FIXContainer:
             DuplicatedTagError: group with the same tag already exists
             FIXMessageError: incorrect group type/value
         """
-        tag = str(tag)
+        tag = self._int_tag(tag)
 
         if tag in self:
             raise DuplicatedTagError(f"group with {tag=} already exists")
